@@ -20,7 +20,7 @@ def pkg_of(testfile, notes):
     return {"numscript_test": ".", "numscript": ".", "parser": "internal/parser", "parser_test": "internal/parser", "analysis": "internal/analysis", "analysis_test": "internal/analysis",
             "interpreter": "internal/interpreter", "interpreter_test": "internal/interpreter", "lsp": "internal/lsp", "lsp_test": "internal/lsp", "cmd": "internal/cmd", "cmd_test": "internal/cmd"}[pkg]
 out = {}
-for d in sorted(glob.glob("/tmp/seedout/C??_?")):
+for d in sorted(glob.glob(os.environ.get("SEEDOUT_GLOB", "/tmp/seedout/C??_?"))):
     sid = os.path.basename(d)
     if len(sys.argv) > 1 and sid not in sys.argv[1:]:
         continue
@@ -59,4 +59,4 @@ for d in sorted(glob.glob("/tmp/seedout/C??_?")):
                    "needs_to_manifest": "see notes.md", "confirmed": {"existing suite passes with the patch": True, "demonstration fails with the patch": True, "demonstration passes without the patch": True, "needs -race": bool(race)},
                    "commands": ["git apply patch.diff", "go test -vet=off -count=1 ./...", "go test -vet=off -count=1 %s ./%s (with the demonstration copied there)" % (race, rel)]},
                   open(os.path.join(tgt, "meta.json"), "w"), indent=1)
-json.dump(out, open("/tmp/seedout/confirm.json", "w"), indent=1)
+json.dump(out, open(os.environ.get("SEEDOUT_CONFIRM", "/tmp/seedout/confirm.json"), "w"), indent=1)
